@@ -49,7 +49,7 @@ def run(tier, replay=None):
         r = res[s["scn"]]
         if r["ref"] == "Valid" and ("dynamic" in r["types"]) and (r["maxdist"] >= 16384 or "15" in s["meta"]["plan"] or r["nout"] > 4096):
             plans[(s["meta"]["plan"], s["wrap"])] = 1
-    cov = {"evaluations": len(scns), "distinct_nontrivial": len(plans), "calls": calls, "streams": len(set(bytes(s["inp"]) for s in scns)),
+    cov = {"evaluations": len(scns), "distinct_nontrivial": len(plans), "calls": calls, "state_machine_conformance": igz.inflate_conformance(res), "streams": len(set(bytes(s["inp"]) for s in scns)),
            "spec_says_valid": len(scns) - len(notvalid), "kernels": inflfam.KERNEL_CPUS, "tlc_wall_s": round(tw, 1),
            "rule": "streams from the deflate grammar (lib/defgen.py: stored/fixed/dynamic blocks in any order incl. empty ones, complete prefix codes up to 15 bits, single-code distance alphabets, every length/distance symbol edge, overlapping copies, distance 32768, "
                    "compressed sizes on both sides of the 2K/4K multi-symbol thresholds) and zlib-made streams (Z_FIXED/Z_HUFFMAN_ONLY/Z_RLE/default), wrapped for all 7 inflate modes; each replayed one-shot and streaming (1-byte in, 1-byte out, mixed) under the three decode kernels "
